@@ -90,7 +90,7 @@ class Evaluator:
         cache = m.__dict__.setdefault('_e5_bindings', {})
         if name not in cache:
             found = [st for st in m.tree.body if (isinstance(st, ast.Assign) and any(isinstance(t, ast.Name) and t.id == name for t in st.targets))
-                     or (isinstance(st, ast.FunctionDef) and st.name == name)]
+                     or (isinstance(st, (ast.FunctionDef, ast.ClassDef)) and st.name == name)]
             cache[name] = found[0] if len(found) == 1 else None
         return cache[name]
 
@@ -108,6 +108,20 @@ class Evaluator:
             if isinstance(st, ast.Assign) and any(isinstance(t, ast.Name) and t.id == name for t in st.targets):
                 return st
         return None
+
+    def _class_namespace(self, cdef):
+        """The constants of a module-level class (its simple class-body assignments, evaluated in order)."""
+        cache = self.module.__dict__.setdefault('_e5_classes', {})
+        if cdef.name not in cache:
+            env = {}
+            for st in cdef.body:
+                if isinstance(st, ast.Assign) and len(st.targets) == 1 and isinstance(st.targets[0], ast.Name):
+                    try:
+                        env[st.targets[0].id] = self.expr(st.value, dict(env))
+                    except AnalysisError:
+                        pass
+            cache[cdef.name] = _NS(**env)
+        return cache[cdef.name]
 
     def _dunder(self, v, env, name):
         """The class's own implementation of a protocol method, when `v` is the object the
@@ -387,6 +401,8 @@ class Evaluator:
                 return self.expr(b.value, {})
             if isinstance(b, ast.FunctionDef):
                 return lambda *a, **k: self.call_function(b, a, k)
+            if isinstance(b, ast.ClassDef):
+                return self._class_namespace(b)
             if e.id in ('frozenset', 'tuple', 'list', 'dict', 'set', 'bool', 'bytes'):
                 return {'frozenset': frozenset, 'tuple': tuple, 'list': list, 'dict': dict, 'set': set, 'bool': bool, 'bytes': bytes}[e.id]
             raise AnalysisError(f'unknown name {e.id} in decision procedure')
@@ -622,6 +638,10 @@ class Evaluator:
                 b = self._module_binding(f.id)
                 if isinstance(b, ast.FunctionDef):
                     return self.call_function(b, args, kwargs)
+                if isinstance(b, ast.Assign):
+                    fv = self.expr(b.value, {})  # e.g. a bound method of a compiled pattern
+                    if callable(fv):
+                        return fv(*args, **kwargs)
                 if f.id in ('frozenset', 'bytes', 'sum', 'repr', 'iter', 'next', 'filter', 'hasattr', 'callable', 'getattr', 'hex', 'oct', 'bin', 'round', 'float', 'range', 'divmod', 'type', 'id'):
                     r = {'frozenset': frozenset, 'bytes': bytes, 'sum': sum, 'repr': repr, 'iter': iter, 'next': next, 'filter': filter, 'hasattr': hasattr, 'callable': callable, 'getattr': getattr, 'hex': hex, 'oct': oct, 'bin': bin, 'round': round, 'float': float, 'range': range, 'divmod': divmod, 'type': type, 'id': id}[f.id](*args, **kwargs)
                     return list(r) if f.id in ('filter', 'range') else r
